@@ -50,7 +50,7 @@ func NewOut(path, suite string, seed uint64, tier string) *Out {
 	return &Out{
 		w: bufio.NewWriterSize(f, 1<<20), Suite: suite, Seed: seed, Tier: tier,
 		OpHist: map[string]int{}, ObsHist: map[string]int{}, distinct: map[[32]byte]struct{}{},
-		Notes: map[string]int{},
+		Notes: map[string]int{}, Failures: []Failure{}, Samples: [][]string{},
 	}
 }
 
